@@ -1032,7 +1032,8 @@ fn gen_trace(g: &mut Gen) -> TraceOut {
         obs: vec![],
         err: None,
     };
-    let cap = 10 + g.rng.below(22) as usize;
+    // the number of operations of a history; long histories (max_labels > 200) get more of them
+    let cap = if g.max_labels > 200 { 30 + g.rng.below(40) as usize } else { 10 + g.rng.below(22) as usize };
     let nlabels = 10 + g.rng.below(g.max_labels as u64 - 9) as usize;
     for k in 0..nlabels {
         match g.choose(&w, cap, (100 * k / nlabels) as u64) {
